@@ -16,6 +16,16 @@ import tie
 CONFIG = {
     'C01': dict(profiles=['tasks', 'mixed'], fwd_tags=['task', 'horizon', 'problem'], bwd=False, o1=False,
                 spec=['C01/'], n=(160, 3000)),
+    'C02': dict(profiles=['resources', 'resources', 'mixed'], fwd_tags=['task', 'overlap', 'work'], bwd=False, o1=False,
+                spec=['C02/'], n=(180, 3000)),
+    'C03': dict(profiles=['taskcons', 'taskcons', 'mixed'], fwd_tags=['cons'], bwd=False, o1=False,
+                spec=['C03/'], n=(210, 4000)),
+    'C04': dict(profiles=['rescons', 'rescons', 'late', 'mixed'], fwd_tags=['cons'], bwd=False, o1=False,
+                spec=['C04/'], n=(240, 4000)),
+    'C06': dict(profiles=['optional', 'optional', 'mixed'], fwd_tags=['task', 'cons', 'horizon', 'overlap'], bwd=False, o1=False,
+                spec=['C06/', 'C01/', 'C02/'], n=(180, 3000)),
+    'C10': dict(profiles=['fol', 'fol', 'mixed'], fwd_tags=['cons'], bwd=True, o1=False,
+                spec=['C10/'], n=(210, 4000)),
     'C18': dict(profiles=['malformed', 'malformed', 'mixed'], fwd_tags=[], bwd=False, o1=True, spec=[], n=(400, 6000)),
 }
 
